@@ -17,6 +17,7 @@ import time
 from sim import atlas as atlas_mod
 from sim import bootstrap, forkpool, ops, seeds, ser, setshim, textgen
 from sim.baton import Baton, SimCancelled, SimOverrun
+from sim.simlock import SimDeadlock
 
 PROP = "C15"
 PKG = os.path.join(os.path.realpath(bootstrap.REPO), "eyecite") + os.sep
@@ -98,7 +99,7 @@ def exec_scenario(scn):
             # the plain-text call a user makes after cleaning the markup himself
             try:
                 cleaned = clean_text(op["markup"], list(op["clean"]))
-            except (SimCancelled, SimOverrun):
+            except (SimCancelled, SimOverrun, SimDeadlock):
                 raise
             except Exception:
                 return
@@ -123,7 +124,7 @@ def exec_scenario(scn):
                     res = get_citations(ops.fresh_str(op.get("text", "")), tokenizer=tok)
                 baton.end_op(t)
                 outcome = ser.citations(res)
-            except (SimCancelled, SimOverrun):
+            except (SimCancelled, SimOverrun, SimDeadlock):
                 raise
             except Exception as e:
                 baton.end_op(t)
@@ -157,7 +158,7 @@ def exec_scenario(scn):
                         text, [(c.span(), "<a>", "</a>") for c in cits])
                 else:
                     clean_text(text, ["all_whitespace", "underscores"])
-            except (SimCancelled, SimOverrun):
+            except (SimCancelled, SimOverrun, SimDeadlock):
                 raise
             except Exception:
                 pass
@@ -180,7 +181,7 @@ def exec_scenario(scn):
                 filter_citations(list(r["res"]) + refs)
                 # the returned list is a result of an earlier call too
                 retain(t, j, {"op": "H4refs", "text": r["op"].get("text", "")}, refs)
-            except (SimCancelled, SimOverrun):
+            except (SimCancelled, SimOverrun, SimDeadlock):
                 raise
             except Exception:
                 pass
@@ -226,7 +227,7 @@ def exec_scenario(scn):
                 stats["cancelled"] += 1
                 baton.end_op(t)
                 baton.retrace()
-            except SimOverrun:
+            except (SimOverrun, SimDeadlock):
                 stats["overrun"] = True
                 return
             finally:
@@ -254,7 +255,7 @@ def exec_scenario(scn):
         "window_hits": sorted(baton.window_hits.items()),
         "cancel_sites": baton.cancel_sites,
         "shim": (shim_mods, setshim.STATE.iterations, setshim.STATE.reordered),
-        "stats": stats,
+        "stats": stats, "lock_waits": baton.lock_waits,
     }
     if want_full:
         out["full"] = full
@@ -585,6 +586,7 @@ class Checker:
             c["cancellations"] += res["stats"]["cancelled"]
             c["rechecks"] += res["stats"]["rechecks"]
             c["raised_outcomes"] += res["stats"]["raised"]
+            c["lock_waits"] = c.get("lock_waits", 0) + res.get("lock_waits", 0)
             if res["stats"]["overrun"]:
                 c["overruns"] += 1
                 c["inconclusive"] += 1
@@ -676,6 +678,7 @@ class Checker:
             self.cnt["events"] += r["events"]
             self.cnt["switches"] += r["switches"]
             self.cnt["cancellations"] += r["stats"]["cancelled"]
+            self.cnt["lock_waits"] = self.cnt.get("lock_waits", 0) + r.get("lock_waits", 0)
             for name in r["cancel_sites"]:
                 self.cancel_sites[name] = self.cancel_sites.get(name, 0) + 1
             if len(scn["threads"]) > 1:
@@ -1159,6 +1162,7 @@ class Checker:
             "set_order_iterations_reordered": c["shim_reordered"],
             "single_preemption_sweep": getattr(self, "sweep", None),
             "isolated_baselines": getattr(self, "baselines", None),
+            "blocking_lock_acquires_turned_into_scheduler_yields": c.get("lock_waits", 0),
             "forced_window_hits": dict(sorted(self.window_hits.items())),
             "faults_injected": {
                 "cancellations_fired": c["cancellations"],
